@@ -142,6 +142,7 @@ impl Acct {
         if *u.id() == self.cur {
             match u.state() {
                 State::Alive => {}
+                State::Suspect if self.conn == Conn::Defunct => {}
                 State::Suspect => {
                     let m = u.incarnation().max(self.inc);
                     if m == u16::MAX {
